@@ -18,6 +18,7 @@ type valGen struct {
 	cycles   bool
 	goOK     bool
 	plain    bool // JSON-representable values only (round-trip cases)
+	wsGap    bool // string gaps consist of JSON white space only
 	stack    []int
 }
 
@@ -124,9 +125,24 @@ func (g *valGen) primitive() DV {
 
 func (g *valGen) key() string {
 	if g.r.Chance(1, 10) {
-		return g.randString(g.plain)
+		return notIdentifier(g.randString(g.plain))
 	}
 	return core.Pick(g.r, objKeys)
+}
+
+// notIdentifier keeps random keys away from the names of standard prototype methods the model does not carry
+// (Array.prototype.map, …): a random key that looks like an identifier gets a '!' appended.
+func notIdentifier(s string) string {
+	if len(s) < 2 {
+		return s
+	}
+	for i := 0; i < len(s); i++ {
+		c := s[i]
+		if !(c >= 'a' && c <= 'z' || c >= 'A' && c <= 'Z' || c == '_' || c == '$' || c >= '0' && c <= '9') {
+			return s
+		}
+	}
+	return s + "!"
 }
 
 // value generates a value slot at the given depth.
@@ -451,7 +467,7 @@ func (g *valGen) genReplacer(keysInUse []string) (DV, string) {
 	case 2:
 		n := g.d.add("arr")
 		cnt := g.r.PickW([]int{8, 12, 20, 20, 20, 20})
-		class := "list"
+		var hasNum, hasBoxed, hasDup, hasHole bool
 		for i := 0; i < cnt; i++ {
 			var v DV
 			switch g.r.PickW([]int{45, 12, 10, 10, 8, 8, 7}) {
@@ -463,21 +479,21 @@ func (g *valGen) genReplacer(keysInUse []string) (DV, string) {
 				}
 			case 1:
 				v = dNum(core.Pick(g.r, []float64{0, 1, 2, 7, 10, 1.5, math.Copysign(0, -1), -1, 4294967294, 1e21, math.NaN(), math.Inf(1)}))
-				class = "list+num"
+				hasNum = true
 			case 2:
 				b := g.d.add("boxstr")
 				b.Prim = dStr(core.Pick(g.r, append([]string{"a", "b", "0"}, keysInUse...)))
 				v = dRef(b.ID)
-				class = "list+boxed"
+				hasBoxed = true
 			case 3:
 				b := g.d.add("boxnum")
 				b.Prim = dNum(core.Pick(g.r, []float64{0, 1, 2, 10, 1.5}))
 				v = dRef(b.ID)
-				class = "list+boxed"
+				hasBoxed = true
 			case 4: // duplicate of an earlier entry
 				if len(n.Props) > 0 {
 					v = core.Pick(g.r, n.Props).Val
-					class += "+dup"
+					hasDup = true
 				} else {
 					v = dStr("a")
 				}
@@ -497,6 +513,7 @@ func (g *valGen) genReplacer(keysInUse []string) (DV, string) {
 				}
 			default: // hole
 				n.Len = i + 1 + g.r.Intn(2)
+				hasHole = true
 				continue
 			}
 			n.Props = append(n.Props, DProp{Key: strconv.Itoa(i), Val: v})
@@ -504,10 +521,19 @@ func (g *valGen) genReplacer(keysInUse []string) (DV, string) {
 		if n.Len < cnt {
 			n.Len = cnt
 		}
+		class := "list"
+		for _, f := range []struct {
+			on   bool
+			name string
+		}{{hasNum, "+num"}, {hasBoxed, "+boxed"}, {hasDup, "+dup"}, {hasHole, "+hole"}} {
+			if f.on {
+				class += f.name
+			}
+		}
 		if g.r.Chance(1, 8) {
 			p := g.d.add("proxy")
 			p.Target = n.ID
-			return dRef(p.ID), strings.Replace(class, "list", "proxylist", 1)
+			return dRef(p.ID), "proxy" + class
 		}
 		return dRef(n.ID), class
 	}
@@ -540,8 +566,10 @@ func (g *valGen) genSpace() (DV, string) {
 			class += "+valueOf"
 		}
 		if kind == "boxstr" && g.r.Chance(1, 4) {
-			n.Props = append(n.Props, DProp{Key: "toString", Val: dFn("F_ts")})
-			class += "+toString"
+			if !g.wsGap {
+				n.Props = append(n.Props, DProp{Key: "toString", Val: dFn("F_ts")})
+				class += "+toString"
+			}
 		}
 		return dRef(n.ID), class
 	}
@@ -549,7 +577,11 @@ func (g *valGen) genSpace() (DV, string) {
 		n := g.r.Intn(13)
 		var b strings.Builder
 		for jsonref.Len16(b.String()) < n {
-			b.WriteString(core.Pick(g.r, gapChars))
+			if g.wsGap {
+				b.WriteString(core.Pick(g.r, []string{" ", "\t", "\n", "\r"}))
+			} else {
+				b.WriteString(core.Pick(g.r, gapChars))
+			}
 		}
 		s := b.String()
 		u := jsonref.Units(s)
